@@ -501,11 +501,20 @@ func modifyAfterDecode(t byte, wire []byte, detail map[string]interface{}) {
 			}
 			what = "SetPayload/SetTopic"
 		case *message.SubscribeMessage:
+			if ts := mm.Topics(); len(ts) > 0 && len(wire)%3 == 0 {
+				// only the requested QoS of a filter the packet carried is changed
+				mm.AddTopic(append([]byte{}, ts[0]...), (mm.Qos()[0]+1)%3)
+				what = "AddTopic(existing filter, other QoS)"
+				break
+			}
 			mm.AddTopic([]byte("added/by/setter"), 1)
 			if ts := mm.Topics(); len(ts) > 1 && len(wire)%2 == 0 {
 				mm.RemoveTopic(append([]byte{}, ts[0]...))
 			}
 			what = "AddTopic/RemoveTopic"
+		case *message.SubackMessage:
+			mm.AddReturnCodes([]byte{1})
+			what = "AddReturnCodes"
 		case *message.UnsubscribeMessage:
 			mm.AddTopic([]byte("added/by/setter"))
 			if ts := mm.Topics(); len(ts) > 1 && len(wire)%2 == 0 {
